@@ -507,7 +507,7 @@ pub fn clone_exactness_finding<const N: usize>(g: &Sodg<N>) -> Option<Finding> {
 
 fn swap_tag(op: &Op) -> Option<&'static str> {
     match op {
-        Op::CloneSwap => Some("C10"),
+        Op::CloneSwap | Op::CloneFromSwap => Some("C10"),
         Op::ReloadSwap => Some("C08"),
         Op::Merge(..) => Some("C11"),
         _ => None,
@@ -536,7 +536,7 @@ pub fn check_transition<const N: usize>(
             Op::Add(_) => vec!["C02", "C04", "C07"],
             Op::Bind(..) | Op::Put(..) | Op::Data(_) => vec!["C02", "C07"],
             Op::NextId | Op::AddNext => vec!["C05", "C07"],
-            Op::CloneSwap => vec!["C10", "C07"],
+            Op::CloneSwap | Op::CloneFromSwap => vec!["C10", "C07"],
             Op::ReloadSwap => vec!["C08", "C07"],
             Op::Merge(..) => vec!["C11", "C07"],
             Op::MergeFail(..) => vec!["C12", "C07"],
@@ -728,6 +728,7 @@ pub fn op_name(op: &Op) -> &'static str {
         Op::NextId => "next_id",
         Op::AddNext => "add_next",
         Op::CloneSwap => "clone",
+        Op::CloneFromSwap => "clone_from",
         Op::ReloadSwap => "reload",
         Op::Merge(..) | Op::MergeFail(..) => "merge",
     }
@@ -932,6 +933,7 @@ fn count_transition(c: &mut BTreeMap<&'static str, u64>, m0: &Model, op: &Op, ex
         Op::NextId => bump(c, "next_id_calls"),
         Op::AddNext => bump(c, "add_next_calls"),
         Op::CloneSwap => bump(c, "clone_swaps"),
+        Op::CloneFromSwap => bump(c, "clone_from_swaps"),
         Op::ReloadSwap => {
             bump(c, "reload_swaps");
             if m0.present.values().any(|x| x.unread && x.group.is_some()) {
@@ -1228,7 +1230,7 @@ fn record(cfg: &HxCfg, res: &mut HxResult, hist: &[Op], op: Option<Op>, f: Findi
     // the same history WITHOUT those swaps follows the model all the way - a differential oracle.
     let mut f = f;
     if !mine && (cfg.prop == "C08" || cfg.prop == "C10") && op.is_some() {
-        let is_swap = |o: &Op| if cfg.prop == "C08" { matches!(o, Op::ReloadSwap) } else { matches!(o, Op::CloneSwap) };
+        let is_swap = |o: &Op| if cfg.prop == "C08" { matches!(o, Op::ReloadSwap) } else { matches!(o, Op::CloneSwap | Op::CloneFromSwap) };
         if hist.iter().any(is_swap) && !f.kind.starts_with("clone-") && !f.kind.starts_with("reload-") {
             let stripped: Vec<Op> = hist.iter().copied().filter(|o| !is_swap(o)).collect();
             if history_follows_model(cfg, &stripped) {
